@@ -350,3 +350,48 @@ func VH_C19_FieldTypes() {
 	}
 	vStepLimit(0, "")
 }
+
+// ---------- tag text at the character level ----------
+
+// VH_C19_TagBytes: the tag of one field ends in up to vhTagBytes arbitrary
+// characters from an alphabet of quotes, back-quote, backslash, brackets,
+// operators, NUL, newline and a non-ASCII byte, after a valid prefix: the real
+// tag lexer (text/scanner, executed from SSA) and parseType must return a node
+// or an error.
+const vhTagBytes = 2 // @tier quick=2 thorough=3
+
+var vhTagAlphabetBytes = []byte{'\'', '`', '"', '\\', 'a', '(', ')', '@', ' ', '\n', 0x80, 0, '?', ':', '!', '~', '|', '*'}
+
+var vhTagPrefixes = []string{"@A ", "", "( @A ) ", "@\"x\" "}
+
+func VH_C19_TagBytes() {
+	prefix := vhTagPrefixes[vChoose("prefix", len(vhTagPrefixes))]
+	n := vChoose("len", vhTagBytes+1)
+	tail := vString("tag", n)
+	for i := 0; i < n; i++ {
+		ok := false
+		for _, c := range vhTagAlphabetBytes {
+			ok = vOr(ok, tail[i] == c)
+		}
+		vAssume(ok)
+	}
+	tag := prefix + tail
+	var rt reflect.Type
+	if vSymbolic() {
+		// a struct tag is part of the (concrete) type: under the executor the
+		// symbolic text is handed to the tag lexer through fieldLexerTag
+		rt = reflect.StructOf([]reflect.StructField{{Name: "F0", Type: reflect.TypeOf(""), Tag: "x"}})
+		vOverride("github.com/alecthomas/participle/v2.fieldLexerTag", func(field reflect.StructField) string { return tag })
+	} else {
+		rt = reflect.StructOf([]reflect.StructField{{Name: "F0", Type: reflect.TypeOf(""), Tag: reflect.StructTag(tag)}})
+	}
+	ctx := newGeneratorContext(&vhStreamDef{})
+	node, err := ctx.parseType(rt)
+	vAssert((node != nil) != (err != nil), "C19: parseType must return a node or an error, not both or neither")
+	if err == nil {
+		_ = validate(node)
+		vReach("built")
+	} else {
+		vReach("rejected")
+	}
+}
